@@ -1495,6 +1495,9 @@ func (v *VMValue) ComputedExecute(ctx *Context, detail *BufferSpan) *VMValue {
 	} else {
 		vm.code = cd.code
 		vm.codeIndex = cd.codeIndex
+		// 预编译的代码没有经过 Parse，补一个 parser 供执行期按偏移取原文(如 push.def_expr)
+		vm.parser = &parser{data: []byte(cd.Expr)}
+		vm.parser.pt.offset = len(vm.parser.data)
 		vm.evaluate()
 	}
 
@@ -1579,6 +1582,9 @@ func (v *VMValue) FuncInvokeRaw(ctx *Context, params []*VMValue, useUpCtxLocal b
 	} else {
 		vm.code = cd.code
 		vm.codeIndex = cd.codeIndex
+		// 预编译的代码没有经过 Parse，补一个 parser 供执行期按偏移取原文(如 push.def_expr)
+		vm.parser = &parser{data: []byte(cd.Expr)}
+		vm.parser.pt.offset = len(vm.parser.data)
 		vm.evaluate()
 	}
 
